@@ -72,6 +72,11 @@ CHECKS.update({
          "Every returned expression is walked leaf by leaf against the vocabulary its algorithm is allowed. Held = no foreign leaf on the executions listed.",
          "vocabulary per the property statement; declared domains and experiment sets taken from the call's own arguments", "DESIGN §4 C06"),
 })
+CHECKS.update({
+ "C19": ("post-conditions on the real minimize_counterfactual (value arrays over the whole exogenous-noise grid of exact SCMs: the SAME random variable; subscripts vs x ∩ An(Y) in G-bar-X), simplify (probability preserved, 'impossible' refuted by witness models, exception recorder), get_ancestors_of_counterfactual (Definition 2.1 by set algebra), get_ancestral_components (Definition 4.2), do_counterfactual_factor_factorization (sum-product vs P(query) on exact SCMs, existential over subscript conventions)",
+         "Each of the five building blocks is judged on every call against its published definition / the model. Held = no violation outside the listed mechanisms.",
+         "trusts O1/O3 and my reading of Definitions 2.1 and 4.2; listed findings mask further defects in their sub-families", "DESIGN §4 C19"),
+})
 PLANNED = {}
 
 def main():
